@@ -245,3 +245,37 @@ func VH_C09_flusher_stop() {
 	vAssert("C09.stop.still_answers", err == nil)
 	vAssert("C09.stop.close", db.Close() == nil)
 }
+
+// VH_C09_close_flusher: Close (and FlushAllAndCommit, Drop) beside the
+// running flusher of an asynchronous collection configured "threshold only"
+// (a timeout that never elapses): the call returns while the flusher is
+// anywhere in its polling loop — it may wait for the flusher, but then the
+// flusher has to notice within a few polling periods — and everything
+// accepted is on disk afterwards.
+func VH_C09_close_flusher() {
+	root := vTempDir()
+	db := Open(root)
+	LowercaseNames = false
+	s := DefaultSchema
+	s.Asynchrone(1000, time.Duration(1<<62))
+	vAssert("C09.closef.create", db.Create(&vObj{}, s) == nil)
+	o := &vObj{A: 1, S: "s", U: 1}
+	vAssert("C09.closef.pre", db.InsertOrUpdate(o) == nil)
+	op := vChoice("op", 3)
+	done := false
+	vPar(func() {
+		switch op {
+		case 0:
+			db.Close()
+		case 1:
+			db.FlushAllAndCommit(&vObj{})
+		case 2:
+			db.Control()
+		}
+		done = true
+	}, func() { vRunSpawned(6) })
+	vAssert("C09.closef.completed", done)
+	if op == 0 {
+		vAssert("C09.closef.on_disk", vFileExists(vhObjPath(root, o.UUID())))
+	}
+}
